@@ -33,6 +33,9 @@ def plan(tier, seed):
         for first in range(len(HK.ACTIONS)):
             parts.append(Part("vt.harness.cont", "seq", {"drv": drv, "k": k, "first": first, "init": first % 2, "c09": 1}, 900 if tier == "quick" else 8000, 300,
                               "container level: same steps succeed/fail and leave the same data, metadata objects and query results on both drivers (common reference model), incl. patch boundaries and reopen points"))
+    import vt.contactions as _CA
+    for sel in _CA.mirror_sels():
+        parts.append(Part("vt.harness.cont", "seq", dict(sel, **{"c09": 1}), 900 if tier == "quick" else 3000, 300, "container level, mirrored names (g/g/e2 exists, g/e2 free): operations through sub-group handles resolve relative targets against the handle on both drivers", weight=2))
     return parts + protocol_parts(tier)
 
 
